@@ -72,6 +72,9 @@ Merge(dst, src) ==
 (*        defaults tree (values.yaml)                                         *)
 (*        schema   sequence of constraints (Schema.tla; <<>> = no schema)     *)
 (*        crds     the chart ships a crds/ file                               *)
+(*        notpl    the chart has no file under templates/ at all (a pure      *)
+(*                 grouping chart): nothing of it is rendered, its            *)
+(*                 dependencies are                                           *)
 (*   case.user   : tree, values given in a values file                        *)
 (*   case.uset   : tree, values given by --set (win over the file)            *)
 (* The chart named "root" is the one installed; the same chart definition may *)
@@ -247,14 +250,18 @@ EffFor(case, P, d, rd) ==
   LET ds == IF rd = "own" THEN {d} ELSE DepsOf(case, ChartAt(case, P))
   IN Merge(ExpOwn(case, P), UNION {Put(<<IName(x)>>, Defaults(case, x.name)) : x \in ds})
 
-ExpTags(case) == Sub(Destined(case, <<>>), <<"tags">>)
+\* the tags in force for the dependencies of the chart at P: the top-level `tags` table of the root's values, and
+\* below the root the declaring chart's OWN default `tags` for what the root leaves unset
+ExpTags(case, P) ==
+  IF P = <<>> THEN Sub(Destined(case, <<>>), <<"tags">>)
+  ELSE Merge(Sub(Destined(case, <<>>), <<"tags">>), Sub(Defaults(case, ChartAt(case, P)), <<"tags">>))
 
 \* "the first condition path that resolves to a boolean in the parent's effective values decides,
 \*  otherwise it is disabled exactly when some of its tags are false and none is true"
 ExpEnabled(case, P, d, rd) ==
   LET eff   == EffFor(case, P, d, rd)
       bools == {i \in DOMAIN d.cond : ValAt(eff, d.cond[i]) \in {"true", "false"}}
-      tg    == ExpTags(case)
+      tg    == ExpTags(case, P)
   IN IF bools # {} THEN ValAt(eff, d.cond[MinOfSet(bools)]) = "true"
      ELSE ~( (\E i \in DOMAIN d.tags : ValAt(tg, <<d.tags[i]>>) = "false")
              /\ ~(\E i \in DOMAIN d.tags : ValAt(tg, <<d.tags[i]>>) = "true") )
@@ -358,7 +365,7 @@ LeavesOf(shape, a, src) ==
 BuildCase(shape, a) ==
   [charts |-> [ch \in DOMAIN shape.charts |->
                  [deps |-> shape.charts[ch].deps, schema |-> shape.charts[ch].schema,
-                  crds |-> shape.charts[ch].crds, defaults |-> LeavesOf(shape, a, ch)]],
+                  crds |-> shape.charts[ch].crds, notpl |-> shape.charts[ch].notpl, defaults |-> LeavesOf(shape, a, ch)]],
    user |-> LeavesOf(shape, a, "user"), uset |-> LeavesOf(shape, a, "set")]
 
 Shape    == Shapes[sh]
@@ -377,12 +384,13 @@ CaseId == Shape.name \o "-" \o Digits(asg)
 
 CaseJ(c) == [charts |-> [ch \in DOMAIN c.charts |->
                            [deps |-> c.charts[ch].deps, schema |-> c.charts[ch].schema, crds |-> c.charts[ch].crds,
-                            defaults |-> SeqOf(c.charts[ch].defaults)]],
+                            notpl |-> c.charts[ch].notpl, defaults |-> SeqOf(c.charts[ch].defaults)]],
              user |-> SeqOf(c.user), uset |-> SeqOf(c.uset)]
 
 \* the inverse of CaseJ (what the harness echoes back / a replay file holds)
 CaseOfJ(j) == [charts |-> [ch \in DOMAIN j.charts |->
                              [deps |-> j.charts[ch].deps, schema |-> j.charts[ch].schema, crds |-> j.charts[ch].crds,
+                              notpl |-> IF "notpl" \in DOMAIN j.charts[ch] THEN j.charts[ch].notpl ELSE FALSE,
                               defaults |-> Range(j.charts[ch].defaults)]],
                user |-> Range(j.user), uset |-> Range(j.uset)]
 
